@@ -21,9 +21,9 @@
     flag [false] is the real code, [true] the variant whose notifySubscribers re-acquires
     the read lock (refuted at the end; Properties/C13_gen.v re-checks on the source that
     no method re-acquires a lock it holds). *)
-From Coq Require Import List NArith ZArith Bool.
+From Coq Require Import List NArith ZArith Bool Sorting.Sorted Sorting.Permutation.
 From Tongo Require Import Model.Pool Model.PoolWait Proofs.PoolP
-  Proofs.PoolWaitP Proofs.PoolWaitMsgP Proofs.PoolWaitIdP Proofs.PoolWaitW Proofs.PoolMutants.
+  Proofs.PoolWaitP Proofs.PoolWaitMsgP Proofs.PoolWaitIdP Proofs.PoolWaitFifoP Proofs.PoolWaitW Proofs.PoolMutants Proofs.PoolAddP.
 Import ListNotations.
 
 (** ---- selection rule (any number of connections) ---- *)
@@ -53,6 +53,30 @@ Theorem C13_usable_iff_eligible :
   forall cs c, usable_go (max_seqno cs) c = true <-> eligible cs c.
 Proof. exact usable_iff_eligible. Qed.
 
+(** "configuration order" is the order of the pool: whatever the order in which the
+    connections arrive (InitializeConnections dials concurrently), after every sequence of
+    addConnection calls the pool holds exactly the arrived connections in ascending id
+    (= configuration index) order *)
+Theorem C13_add_all_sorted :
+  forall arrival, StronglySorted le (add_all arrival) /\ Permutation arrival (add_all arrival).
+Proof. exact add_all_sorted. Qed.
+
+Theorem C13_add_all_config_order :
+  forall arrival, NoDup arrival -> StronglySorted lt (add_all arrival).
+Proof. exact add_all_config_order. Qed.
+
+(** ... so under first-working the chosen connection has the smallest configuration index
+    among the eligible ones, for every arrival order *)
+Theorem C13_first_working_config_order :
+  forall arrival (obs : nat -> conn) prev i,
+    NoDup arrival ->
+    let ids := add_all arrival in
+    let cs := map obs ids in
+    update_best FirstWorking cs prev = Some i ->
+    forall j d, nth_error cs j = Some d -> eligible cs d -> nth i ids 0 <= nth j ids 0.
+Proof. exact first_working_config_order. Qed.
+Print Assumptions C13_first_working_config_order.
+
 (** ---- waiter contract (any number of waiters and connections, all interleavings) ---- *)
 
 (** A waiter has left its loop with nil / returned nil only if it received a head
@@ -61,7 +85,7 @@ Proof. exact usable_iff_eligible. Qed.
     a head connection c had really reached. *)
 Theorem C13_wait_success :
   forall strat nconns tgt heads b s w,
-    reachable strat false nconns tgt (init_state heads b) s ->
+    reachable strat false false nconns tgt (init_state heads b) s ->
     succeeded (wpc s w) ->   (* = WUnsub ROk, WUnsubW ROk or WDone ROk *)
     exists c h, wgot s w = Some (c, h) /\ (tgt w <= h)%N /\ In (c, h) (log s) /\ (h <= head s c)%N.
 Proof. exact wait_success. Qed.
@@ -69,13 +93,13 @@ Print Assumptions C13_wait_success.
 
 Theorem C13_wait_success_iff :
   forall strat nconns tgt heads b s w,
-    reachable strat false nconns tgt (init_state heads b) s ->
+    reachable strat false false nconns tgt (init_state heads b) s ->
     (succeeded (wpc s w) <-> exists m, wgot s w = Some m /\ (tgt w <= snd m)%N).
 Proof. exact wait_success_iff. Qed.
 
 Theorem C13_log_from_best :
   forall strat nconns tgt s l s',
-    step strat false nconns tgt s l = Some s' ->
+    step strat false false nconns tgt s l = Some s' ->
     log s' = log s \/
     exists c h, log s' = log s ++ [(c, h)] /\ best s = Some c /\
       ((exists w, l = LSubBody w /\ h = head s c) \/
@@ -86,8 +110,8 @@ Proof. exact log_from_best. Qed.
 Theorem C13_wait_immediate :
   forall strat nconns tgt s w b,
     wpc s w = WSubL -> writer s = Some (AW w) -> best s = Some b -> (tgt w <= head s b)%N ->
-    exists s1 s2, step strat false nconns tgt s (LSubBody w) = Some s1 /\
-                  step strat false nconns tgt s1 (LRecv w) = Some s2 /\ wpc s2 w = WUnsub ROk /\
+    exists s1 s2, step strat false false nconns tgt s (LSubBody w) = Some s1 /\
+                  step strat false false nconns tgt s1 (LRecv w) = Some s2 /\ wpc s2 w = WUnsub ROk /\
                   writer s1 = None /\ wl s1 = wl s.
 Proof. exact wait_immediate. Qed.
 
@@ -97,10 +121,10 @@ Proof. exact wait_immediate. Qed.
     one with a larger seqno) *)
 Theorem C13_wait_not_missed :
   forall strat nconns tgt heads b s w m,
-    reachable strat false nconns tgt (init_state heads b) s ->
+    reachable strat false false nconns tgt (init_state heads b) s ->
     wpc s w = WWait -> In m (woff s w) -> (tgt w <= snd m)%N ->
     exists m' s', wch s w = Some m' /\ (tgt w <= snd m')%N /\
-                  step strat false nconns tgt s (LRecv w) = Some s' /\ wpc s' w = WUnsub ROk.
+                  step strat false false nconns tgt s (LRecv w) = Some s' /\ wpc s' w = WUnsub ROk.
 Proof. exact wait_not_missed. Qed.
 Print Assumptions C13_wait_not_missed.
 
@@ -108,7 +132,7 @@ Print Assumptions C13_wait_not_missed.
     sent to every waiter registered at that moment *)
 Theorem C13_notify_reaches_all :
   forall strat nconns tgt heads b s u,
-    reachable strat false nconns tgt (init_state heads b) s -> rpc s = RNotify u true [] ->
+    reachable strat false false nconns tgt (init_state heads b) s -> rpc s = RNotify u true [] ->
     forall id w, In (id, w) (wl s) -> In u (woff s w).
 Proof. exact notify_reaches_all. Qed.
 
@@ -118,12 +142,12 @@ Proof. exact notify_reaches_all. Qed.
 Theorem C13_wait_leave_enabled :
   forall strat nconns tgt s w r,
     wpc s w = WWait -> r <> ROk ->
-    exists s', step strat false nconns tgt s (LLeave w r) = Some s' /\ wpc s' w = WUnsub r.
+    exists s', step strat false false nconns tgt s (LLeave w r) = Some s' /\ wpc s' w = WUnsub r.
 Proof. exact wait_leave_enabled. Qed.
 
 Theorem C13_wait_error :
   forall strat nconns tgt s l s' w r,
-    step strat false nconns tgt s l = Some s' -> wpc s' w = WUnsub r -> wpc s w <> WUnsub r -> r <> ROk ->
+    step strat false false nconns tgt s l = Some s' -> wpc s' w = WUnsub r -> wpc s w <> WUnsub r -> r <> ROk ->
     l = LLeave w r.
 Proof. exact wait_error. Qed.
 
@@ -133,9 +157,9 @@ Proof. exact wait_error. Qed.
     own registration *)
 Theorem C13_wait_returns :
   forall strat nconns tgt heads b s w r,
-    reachable strat false nconns tgt (init_state heads b) s -> wpc s w = WUnsub r ->
+    reachable strat false false nconns tgt (init_state heads b) s -> wpc s w = WUnsub r ->
     exists ls s', forallb internal ls = true /\
-      run strat false nconns tgt s (ls ++ [LUnsubWant w; LUnsub w]) = Some s' /\ wpc s' w = WDone r /\
+      run strat false false nconns tgt s (ls ++ [LUnsubWant w; LUnsub w]) = Some s' /\ wpc s' w = WDone r /\
       (forall e, In e (wl s') -> fst e <> wid s w).
 Proof. exact wait_returns. Qed.
 Print Assumptions C13_wait_returns.
@@ -146,8 +170,8 @@ Print Assumptions C13_wait_returns.
     channel), or a fresh non-zero id under which the caller is registered *)
 Theorem C13_subscribe_ids :
   forall strat nconns tgt heads b s w s',
-    reachable strat false nconns tgt (init_state heads b) s ->
-    step strat false nconns tgt s (LSubBody w) = Some s' ->
+    reachable strat false false nconns tgt (init_state heads b) s ->
+    step strat false false nconns tgt s (LSubBody w) = Some s' ->
     (wid s' w = 0%N /\ wl s' = wl s /\ wch s' w <> None) \/
     (wid s' w <> 0%N /\ wl s' = wl s ++ [(wid s' w, w)] /\ forall e, In e (wl s) -> fst e <> wid s' w) \/
     wpc s' w = WPanicked.
@@ -155,20 +179,20 @@ Proof. exact subscribe_ids. Qed.
 
 Theorem C13_registered_id_nonzero :
   forall strat nconns tgt heads b s id w,
-    reachable strat false nconns tgt (init_state heads b) s -> In (id, w) (wl s) -> id <> 0%N /\ wid s w = id.
+    reachable strat false false nconns tgt (init_state heads b) s -> In (id, w) (wl s) -> id <> 0%N /\ wid s w = id.
 Proof. exact registered_id_nonzero. Qed.
 
 Theorem C13_unsub_satisfied_removes_nobody :
   forall strat nconns tgt heads b s w s',
-    reachable strat false nconns tgt (init_state heads b) s -> wid s w = 0%N ->
-    step strat false nconns tgt s (LUnsub w) = Some s' -> wl s' = wl s.
+    reachable strat false false nconns tgt (init_state heads b) s -> wid s w = 0%N ->
+    step strat false false nconns tgt s (LUnsub w) = Some s' -> wl s' = wl s.
 Proof. exact unsub_satisfied_removes_nobody. Qed.
 Print Assumptions C13_unsub_satisfied_removes_nobody.
 
 Theorem C13_unsub_removes_only_own :
   forall strat nconns tgt heads b s w s',
-    reachable strat false nconns tgt (init_state heads b) s ->
-    step strat false nconns tgt s (LUnsub w) = Some s' ->
+    reachable strat false false nconns tgt (init_state heads b) s ->
+    step strat false false nconns tgt s (LUnsub w) = Some s' ->
     forall e, In e (wl s) -> (In e (wl s') <-> snd e <> w).
 Proof. exact unsub_removes_only_own. Qed.
 
@@ -177,16 +201,16 @@ Proof. exact unsub_removes_only_own. Qed.
     its receive returns success *)
 Theorem C13_waiter_stays_registered :
   forall strat nconns tgt heads b s w,
-    reachable strat false nconns tgt (init_state heads b) s -> subscribed (wpc s w) = true -> wid s w <> 0%N ->
+    reachable strat false false nconns tgt (init_state heads b) s -> subscribed (wpc s w) = true -> wid s w <> 0%N ->
     In (wid s w, w) (wl s).
 Proof. exact waiter_stays_registered. Qed.
 
 Theorem C13_registered_waiter_gets_head :
   forall strat nconns tgt heads b s w u,
-    reachable strat false nconns tgt (init_state heads b) s -> wpc s w = WWait -> wid s w <> 0%N ->
+    reachable strat false false nconns tgt (init_state heads b) s -> wpc s w = WWait -> wid s w <> 0%N ->
     rpc s = RNotify u true [] -> (tgt w <= snd u)%N ->
     exists m' s', wch s w = Some m' /\ (tgt w <= snd m')%N /\
-                  step strat false nconns tgt s (LRecv w) = Some s' /\ wpc s' w = WUnsub ROk.
+                  step strat false false nconns tgt s (LRecv w) = Some s' /\ wpc s' w = WUnsub ROk.
 Proof. exact registered_waiter_gets_head. Qed.
 Print Assumptions C13_registered_waiter_gets_head.
 
@@ -194,7 +218,7 @@ Print Assumptions C13_registered_waiter_gets_head.
 
 Theorem C13_pool_lock_mutex :
   forall strat nconns tgt heads b s,
-    reachable strat false nconns tgt (init_state heads b) s ->
+    reachable strat false false nconns tgt (init_state heads b) s ->
     (writer s <> None -> readers s = 0) /\
     (forall w w', wpc s w = WSubL -> wpc s w' = WSubL -> w = w') /\
     (forall w, wpc s w = WSubL -> rpc s <> RUpd).
@@ -204,14 +228,14 @@ Proof. exact pool_lock_mutex. Qed.
     Run inside notifySubscribers) has an enabled step *)
 Theorem C13_pool_never_blocks :
   forall strat nconns tgt heads b s,
-    reachable strat false nconns tgt (init_state heads b) s -> holder_can_step strat false nconns tgt s.
+    reachable strat false false nconns tgt (init_state heads b) s -> holder_can_step strat false false nconns tgt s.
 Proof. exact pool_never_blocks. Qed.
 Print Assumptions C13_pool_never_blocks.
 
 (** no goroutine asks for p.mu while it holds p.mu (no recursive locking) *)
 Theorem C13_no_reacquire :
   forall strat nconns tgt heads b s,
-    reachable strat false nconns tgt (init_state heads b) s ->
+    reachable strat false false nconns tgt (init_state heads b) s ->
     (forall a, wreq s = Some a -> writer s = None /\ (a = ARun -> readers s = 0)) /\
     (forall u, rpc s = RWantR u -> readers s = 0 /\ writer s <> Some ARun) /\
     (forall u, rpc s <> RInner u).
@@ -221,8 +245,8 @@ Proof. exact no_reacquire. Qed.
     pool's own goroutines free the lock and serve the announced writer *)
 Theorem C13_lock_released :
   forall strat nconns tgt heads b s,
-    reachable strat false nconns tgt (init_state heads b) s ->
-    exists ls s', forallb internal ls = true /\ run strat false nconns tgt s ls = Some s' /\
+    reachable strat false false nconns tgt (init_state heads b) s ->
+    exists ls s', forallb internal ls = true /\ run strat false false nconns tgt s ls = Some s' /\
                   lock_free s' = true /\ wreq s' = None.
 Proof. exact lock_released. Qed.
 Print Assumptions C13_lock_released.
@@ -232,40 +256,74 @@ Print Assumptions C13_lock_released.
     leaving the update buffer untouched *)
 Theorem C13_run_is_live :
   forall strat nconns tgt heads b s,
-    reachable strat false nconns tgt (init_state heads b) s ->
-    exists ls s', forallb internal ls = true /\ run strat false nconns tgt s ls = Some s' /\ rpc s' = RIdle /\
+    reachable strat false false nconns tgt (init_state heads b) s ->
+    exists ls s', forallb internal ls = true /\ run strat false false nconns tgt s ls = Some s' /\ rpc s' = RIdle /\
                   updq s' = updq s /\ pend s' = pend s.
 Proof. exact run_gets_home. Qed.
 
 (** SetMasterHead holds the connection lock only for a non-blocking critical section
     (one step of the model, [LSetHead], always enabled) ... *)
 Theorem C13_set_head_enabled :
-  forall strat nconns tgt s c h, step strat false nconns tgt s (LSetHead c h) <> None.
+  forall strat nconns tgt s c h, step strat false false nconns tgt s (LSetHead c h) <> None.
 Proof. exact set_head_enabled. Qed.
 
 (** ... and its send into the update buffer, done after the unlock, completes: at
     once if the buffer has room, otherwise after Run has taken one update *)
 Theorem C13_publish_completes :
   forall strat nconns tgt heads b s k m,
-    reachable strat false nconns tgt (init_state heads b) s -> nth_error (pend s) k = Some m ->
+    reachable strat false false nconns tgt (init_state heads b) s -> nth_error (pend s) k = Some m ->
     exists ls s', forallb internal ls = true /\
-                  run strat false nconns tgt s (ls ++ [LPublish k]) = Some s' /\ In m (updq s').
+                  run strat false false nconns tgt s (ls ++ [LPublish k]) = Some s' /\ In m (updq s').
 Proof. exact publish_completes. Qed.
 Print Assumptions C13_publish_completes.
 
 (** a connection's head never decreases *)
 Theorem C13_head_monotone :
   forall strat nconns tgt s s' c,
-    reachable strat false nconns tgt s s' -> (head s c <= head s' c)%N.
+    reachable strat false false nconns tgt s s' -> (head s c <= head s' c)%N.
 Proof. exact head_monotone_reachable. Qed.
 
 (** in a pool with at least one connection the best connection is always one of the
     pool's connections and subscribe never dereferences nil *)
 Theorem C13_subscribe_never_panics :
   forall strat nconns tgt heads b s,
-    b < nconns -> reachable strat false nconns tgt (init_state heads (Some b)) s ->
+    b < nconns -> reachable strat false false nconns tgt (init_state heads (Some b)) s ->
     (exists b', best s = Some b' /\ b' < nconns) /\ forall w, wpc s w <> WPanicked.
 Proof. exact subscribe_never_panics. Qed.
+
+(** ---- Run handles the queued head updates one by one, in FIFO order ---- *)
+
+(** along every run: what was queued plus what was published is exactly what Run took,
+    in that order, followed by what is still queued (nothing lost, merged or reordered) *)
+Theorem C13_run_fifo :
+  forall strat nconns tgt ls s s' tk pb,
+    run_log strat nconns tgt s ls = Some (s', tk, pb) -> updq s ++ pb = tk ++ updq s'.
+Proof. exact run_fifo. Qed.
+Print Assumptions C13_run_fifo.
+
+Theorem C13_take_one_oldest :
+  forall strat nconns tgt s s',
+    step strat false false nconns tgt s LTake = Some s' ->
+    exists u rest, rpc s = RIdle /\ updq s = u :: rest /\ updq s' = rest /\ rpc s' = RWantR u.
+Proof. exact take_one_oldest. Qed.
+
+(** the update taken is the one notifySubscribers is called with *)
+Theorem C13_taken_is_notified :
+  forall strat nconns tgt s u o s',
+    rpc s = RWantR u -> step strat false false nconns tgt s (LRLock o) = Some s' ->
+    exists rem, rpc s' = RNotify u (same_best s (fst u)) rem /\ updq s' = updq s /\
+                (same_best s (fst u) = false -> rem = []).
+Proof. exact taken_is_notified. Qed.
+
+(** REFUTED for the design in which Run merges everything queued into the update with the
+    highest seqno: a registered waiter whose target the best connection has reached —
+    published, consumed by Run, nothing in flight — has been sent nothing *)
+Theorem C13_coalescing_run_refuted :
+  exists strat nconns tgt heads b s,
+    reachable strat false true nconns tgt (init_state heads b) s /\
+    wpc s 0 = WWait /\ In (wid s 0, 0) (wl s) /\ best s = Some 0 /\ (tgt 0%nat <= head s 0%nat)%N /\
+    updq s = [] /\ pend s = [] /\ rpc s = RIdle /\ wch s 0 = None /\ woff s 0 = [].
+Proof. exact wait_success_refuted_coalescing_run. Qed.
 
 (** ---- why the lock model matters: the re-entrant variant deadlocks ---- *)
 
@@ -273,9 +331,9 @@ Proof. exact subscribe_never_panics. Qed.
     holding it: one head update being notified while a caller arrives *)
 Theorem C13_reentrant_rlock_refuted :
   exists strat nconns tgt heads b s,
-    reachable strat true nconns tgt (init_state heads b) s /\
-    forall s', reachable strat true nconns tgt s s' ->
-      ~ holder_can_step strat true nconns tgt s' /\ rpc s' = RInner (0, 1%N) /\ wpc s' 0 = WSubW.
+    reachable strat true false nconns tgt (init_state heads b) s /\
+    forall s', reachable strat true false nconns tgt s s' ->
+      ~ holder_can_step strat true false nconns tgt s' /\ rpc s' = RInner (0, 1%N) /\ wpc s' 0 = WSubW.
 Proof. exact pool_never_blocks_refuted_reentrant_rlock. Qed.
 
 (** ---- non-vacuity ---- *)
@@ -300,14 +358,14 @@ Qed.
     running to completion *)
 Example C13_wait_example :
   exists s,
-    run BestPing false 1 (fun _ => 10%N) (init_state (fun _ => 5%N) (Some 0))
+    run BestPing false false 1 (fun _ => 10%N) (init_state (fun _ => 5%N) (Some 0))
       [LSubWant 0; LSubLock 0; LSubBody 0; LSetHead 0 12; LPublish 0; LTake; LRLock [0]; LSend; LRUnlock;
        LRecv 0; LUnsubWant 0; LUnsub 0] = Some s /\
     wpc s 0 = WDone ROk /\ wgot s 0 = Some (0, 12%N) /\ wl s = [] /\ readers s = 0 /\ writer s = None.
 Proof. exact wait_example. Qed.
 
 Example C13_f14_schedule_completes :
-  exists s, run BestPing false 1 w_tgt (init_state (fun _ => 5%N) (Some 0)) f14_trace = Some s /\
+  exists s, run BestPing false false 1 w_tgt (init_state (fun _ => 5%N) (Some 0)) f14_trace = Some s /\
     wpc s 0 = WDone RTimeout /\ wch s 0 = Some (0, 7%N) /\ wl s = [] /\
     readers s = 0 /\ writer s = None /\ rpc s = RIdle.
 Proof. exact f14_trace_completes. Qed.
